@@ -283,7 +283,7 @@ def r_zonemd_input(origin, rrs):
 # ================================================================================================
 # adapters to the implementation
 # ================================================================================================
-VARIANTS = {"signer": "shipped", "last": "shipped"}
+VARIANTS = {"signer": "shipped", "last": "shipped", "cut": "shipped"}
 
 
 def lab(hexes):
@@ -685,7 +685,7 @@ def eval_signzone(ctx, c, rep):
 
     r, v = outcome(lambda: dns.dnssec.sign_zone(z, add_dnskey=False, rrset_signer=signer), lambda _: "")
     impl = ("ok " + (" ".join(events) or "-")) if v is not None or r.startswith("ok") else r
-    ctx.corr(f"c15.signzone {VARIANTS['last']} {enc_labels(origin.labels)} 1 " + " ".join(order), impl, c)
+    ctx.corr(f"c15.signzone {VARIANTS['last']} {VARIANTS['cut']} {enc_labels(origin.labels)} 1 " + " ".join(order), impl, c)
     ctx.count("signzone." + sig_family(r) + (".rel" if c["rel"] else ".abs"))
     if not r.startswith("ok"):
         ctx.fail("C15/sign_zone/raises:" + r.split(" ")[1], f"sign_zone -> {r}", rep)
@@ -1182,6 +1182,14 @@ def detect_variants():
         z = dns.zone.from_text("@ 300 SOA ns hostmaster 1 2 3 4 5\n@ 300 NS ns\n", origin="example.", relativize=True, check_origin=False)
         dns.dnssec.sign_zone(z, add_dnskey=False, rrset_signer=lambda txn, rrset: None)
         VARIANTS["last"] = "intended" if z.get_rdataset("@", "NSEC") is not None else "shipped"
+    except Exception:
+        pass
+    try:
+        z = dns.zone.from_text("@ 300 SOA ns hostmaster 1 2 3 4 5\n@ 300 NS ns\nsub NS sub\nsub A 192.0.2.1\n", origin="example.", relativize=True, check_origin=False)
+        dns.dnssec.sign_zone(z, add_dnskey=False, rrset_signer=lambda txn, rrset: None)
+        f = io.BytesIO()
+        Bitmap(z.get_rdataset("sub", "NSEC")[0].windows).to_wire(f)
+        VARIANTS["cut"] = "shipped" if 1 in r_bitmap_decode(f.getvalue()) else "intended"
     except Exception:
         pass
 
